@@ -1,0 +1,284 @@
+//go:build verif
+
+package pongo2
+
+// Verification hooks. This file is only compiled with the build tag "verif".
+// It exposes read-only projections of internal state and two optional
+// callbacks (an event tracer and a blocking gate) used by the conformance
+// harness under /verif. Nothing here changes the behaviour of the engine.
+
+import (
+	"fmt"
+	"hash/fnv"
+	"reflect"
+	"sort"
+	"unsafe"
+)
+
+// VerifEvent is one recorded event of an execution (see /verif/DESIGN.md, Appendix B).
+type VerifEvent struct {
+	Ev string
+	A  int
+	B  int
+	C  int
+	D  int
+	S  string
+	T  string
+	P  uintptr // identity of the object concerned (template set, execution context), 0 if none
+}
+
+var (
+	// VerifTracer receives events if non-nil. It is called synchronously at
+	// the linearization point (for the cache: while the cache mutex is held).
+	VerifTracer func(e VerifEvent)
+	// VerifGate is called before every document-level node is executed if non-nil;
+	// it may block (it is the scheduler of forced-interleaving replays).
+	VerifGate func(ctx *ExecutionContext, kind string, idx int)
+)
+
+func verifEv(ev string, a, b, c, d int, s, t string, p any) {
+	tr := VerifTracer
+	if tr == nil {
+		return
+	}
+	var id uintptr
+	if p != nil {
+		rv := reflect.ValueOf(p)
+		if rv.Kind() == reflect.Ptr || rv.Kind() == reflect.Map {
+			id = rv.Pointer()
+		}
+	}
+	tr(VerifEvent{Ev: ev, A: a, B: b, C: c, D: d, S: s, T: t, P: id})
+}
+
+func verifGate(ctx *ExecutionContext, kind string, idx int) {
+	g := VerifGate
+	if g == nil {
+		return
+	}
+	g(ctx, kind, idx)
+}
+
+func verifB(b bool) int {
+	if b {
+		return 1
+	}
+	return 0
+}
+
+// VerifLex runs the lexer alone.
+func VerifLex(name, src string) ([]*Token, *Error) {
+	return lex(name, src)
+}
+
+// VerifRegisteredTags lists the names in the tag registry (sorted).
+func VerifRegisteredTags() []string {
+	out := make([]string, 0, len(tags))
+	for k := range tags {
+		out = append(out, k)
+	}
+	sort.Strings(out)
+	return out
+}
+
+// VerifRegisteredFilters lists the names in the filter registry (sorted).
+func VerifRegisteredFilters() []string {
+	out := make([]string, 0, len(filters))
+	for k := range filters {
+		out = append(out, k)
+	}
+	sort.Strings(out)
+	return out
+}
+
+// VerifSetStateT is the projection of a TemplateSet onto the abstract state of the specification.
+type VerifSetStateT struct {
+	BannedTags    []string
+	BannedFilters []string
+	Frozen        bool
+	CacheKeys     []string
+	CacheIDs      map[string]uintptr
+}
+
+// VerifSetState projects a set. It takes the cache mutex.
+func VerifSetState(set *TemplateSet) VerifSetStateT {
+	st := VerifSetStateT{CacheIDs: map[string]uintptr{}}
+	for k := range set.bannedTags {
+		st.BannedTags = append(st.BannedTags, k)
+	}
+	for k := range set.bannedFilters {
+		st.BannedFilters = append(st.BannedFilters, k)
+	}
+	sort.Strings(st.BannedTags)
+	sort.Strings(st.BannedFilters)
+	st.Frozen = set.firstTemplateCreated
+	set.templateCacheMutex.Lock()
+	for k, v := range set.templateCache {
+		st.CacheKeys = append(st.CacheKeys, k)
+		st.CacheIDs[k] = reflect.ValueOf(v).Pointer()
+	}
+	set.templateCacheMutex.Unlock()
+	sort.Strings(st.CacheKeys)
+	return st
+}
+
+// VerifTemplateName returns the name a template was created under.
+func VerifTemplateName(tpl *Template) string { return tpl.name }
+
+// VerifCtxTemplateName returns the name of the template an execution context belongs to.
+func VerifCtxTemplateName(ctx *ExecutionContext) string {
+	if ctx == nil || ctx.template == nil {
+		return ""
+	}
+	return ctx.template.name
+}
+
+// VerifCtxMacroDepth returns the macro recursion counter of an execution context.
+func VerifCtxMacroDepth(ctx *ExecutionContext) int { return ctx.macroDepth }
+
+// VerifTemplateDigest hashes everything reachable from a compiled template
+// (tokens, nodes, block tables, macros, parent/child templates, options),
+// following pointers, by reflection. The owning TemplateSet is not followed.
+// Any field added to a node type in the future is covered automatically.
+func VerifTemplateDigest(tpl *Template) string {
+	h := fnv.New64a()
+	w := &verifWalker{seen: map[uintptr]int{}, out: func(s string) { h.Write([]byte(s)); h.Write([]byte{0}) }}
+	w.walk(reflect.ValueOf(tpl), 0)
+	return fmt.Sprintf("%016x", h.Sum64())
+}
+
+// VerifTemplateDump is VerifTemplateDigest's input written out (for diagnosing a digest mismatch).
+func VerifTemplateDump(tpl *Template) []string {
+	var lines []string
+	w := &verifWalker{seen: map[uintptr]int{}, out: func(s string) { lines = append(lines, s) }}
+	w.walk(reflect.ValueOf(tpl), 0)
+	return lines
+}
+
+type verifWalker struct {
+	seen map[uintptr]int
+	out  func(string)
+}
+
+var (
+	verifTypeSet      = reflect.TypeOf((*TemplateSet)(nil))
+	verifTypeRV       = reflect.TypeOf(reflect.Value{})
+	verifTypeParser   = reflect.TypeOf((*Parser)(nil))
+	verifTypeTemplate = reflect.TypeOf((*Template)(nil))
+)
+
+func (w *verifWalker) walk(v reflect.Value, depth int) {
+	if depth > 10000 {
+		w.out("<deep>")
+		return
+	}
+	if !v.IsValid() {
+		w.out("<invalid>")
+		return
+	}
+	t := v.Type()
+	switch t {
+	case verifTypeSet:
+		w.out("<set>")
+		return
+	case verifTypeParser:
+		// the parser is compile-time scratch state (token cursor); its token list is reached through Template.tokens
+		w.out("<parser>")
+		return
+	case verifTypeRV:
+		// a reflect.Value stored in a node (e.g. a remembered *Value)
+		if v.CanAddr() {
+			inner := reflect.NewAt(t, unsafe.Pointer(v.UnsafeAddr())).Elem().Interface().(reflect.Value)
+			if !inner.IsValid() {
+				w.out("rv:<invalid>")
+				return
+			}
+			w.out("rv:" + inner.Kind().String())
+			switch inner.Kind() {
+			case reflect.String:
+				w.out(inner.String())
+			case reflect.Int, reflect.Int8, reflect.Int16, reflect.Int32, reflect.Int64:
+				w.out(fmt.Sprint(inner.Int()))
+			case reflect.Uint, reflect.Uint8, reflect.Uint16, reflect.Uint32, reflect.Uint64:
+				w.out(fmt.Sprint(inner.Uint()))
+			case reflect.Float32, reflect.Float64:
+				w.out(fmt.Sprint(inner.Float()))
+			case reflect.Bool:
+				w.out(fmt.Sprint(inner.Bool()))
+			}
+			return
+		}
+		w.out("rv:<unaddressable>")
+		return
+	}
+	switch v.Kind() {
+	case reflect.Ptr:
+		if v.IsNil() {
+			w.out("nil")
+			return
+		}
+		p := v.Pointer()
+		if n, ok := w.seen[p]; ok {
+			w.out(fmt.Sprintf("@%d", n))
+			return
+		}
+		w.seen[p] = len(w.seen)
+		w.out("&" + t.Elem().String())
+		w.walk(v.Elem(), depth+1)
+	case reflect.Interface:
+		if v.IsNil() {
+			w.out("inil")
+			return
+		}
+		w.walk(v.Elem(), depth+1)
+	case reflect.Struct:
+		w.out("{" + t.String())
+		for i := 0; i < v.NumField(); i++ {
+			w.out(t.Field(i).Name)
+			w.walk(v.Field(i), depth+1)
+		}
+		w.out("}")
+	case reflect.Slice:
+		if v.IsNil() {
+			w.out("snil")
+			return
+		}
+		fallthrough
+	case reflect.Array:
+		w.out(fmt.Sprintf("[%d", v.Len()))
+		for i := 0; i < v.Len(); i++ {
+			w.walk(v.Index(i), depth+1)
+		}
+		w.out("]")
+	case reflect.Map:
+		if v.IsNil() {
+			w.out("mnil")
+			return
+		}
+		keys := v.MapKeys()
+		sort.Slice(keys, func(i, j int) bool { return fmt.Sprint(keys[i]) < fmt.Sprint(keys[j]) })
+		w.out(fmt.Sprintf("m%d", len(keys)))
+		for _, k := range keys {
+			w.out(fmt.Sprint(k))
+			w.walk(v.MapIndex(k), depth+1)
+		}
+	case reflect.String:
+		w.out("s:" + v.String())
+	case reflect.Bool:
+		w.out(fmt.Sprint(v.Bool()))
+	case reflect.Int, reflect.Int8, reflect.Int16, reflect.Int32, reflect.Int64:
+		w.out(fmt.Sprint(v.Int()))
+	case reflect.Uint, reflect.Uint8, reflect.Uint16, reflect.Uint32, reflect.Uint64, reflect.Uintptr:
+		w.out(fmt.Sprint(v.Uint()))
+	case reflect.Float32, reflect.Float64:
+		w.out(fmt.Sprint(v.Float()))
+	case reflect.Func:
+		if v.IsNil() {
+			w.out("fnil")
+		} else {
+			w.out("func")
+		}
+	default:
+		w.out("<" + v.Kind().String() + ">")
+	}
+}
